@@ -60,6 +60,14 @@ CLAIMS = {
         "(poll index p in 0..P+1, listener-triggered cancellation at every event, Canceled and DeadlineExceeded, fact methods cancelling from inside a "
         "condition/action); trace, facts and poll counts compared with the model; monitor: cancelled-but-not-reported, fired-after-cancel.",
         note="Wall-clock deadlines are modelled as cancellation at an arbitrary poll. Fix 94e54e4 in /repo (context re-checked after the pass).", tech="Lean 4 theorems over poll points + exhaustive cancellation-point enumeration", ref="5.C15"),
+ "C19": dict(text="Lean theorems C19_consistent (exactly one of <,==,>; <= is < or ==; >= is > or ==; != is not ==), C19_mirror, C19_bool, "
+        "C19_width_independent, C19_int_uint_denotation for every ordered kind pair of a family and all values (floats as IEEE bit patterns compared "
+        "in integer arithmetic, NaN excluded; times by instant), proved about canonical tables that are proved equal (by decide, no axioms) to the "
+        "tables a go/ast extractor regenerates from pkg/reflectmath.go on every run. The extractor is validated by evaluating the real pkg.Evaluate* "
+        "functions and the model on a boundary-rich operand grid; the C19 statement and exact rational comparison are monitored on the real results.",
+        note="int->float64 conversion and float comparison are implemented on bit patterns in Nat/Int arithmetic (validated against hardware floats "
+        "and Go); unsigned operands >= 2^63 against signed ones are outside the property's int64 window. Fix 3c0c121 in /repo (time compared by instant).",
+        tech="Lean 4 theorems over regenerated operator tables (decide tie) + real-function grid validation", ref="5.C19"),
 }
 
 def main():
